@@ -13,6 +13,7 @@ Structural clauses decided:
     the per-version helpers are handed the frame without its link header
  R6 (also) every round empties the batch it processed, in arrival order
 """
+from ..engine import cfg as C
 from ..engine import paths as PA
 from ..engine import q as Q
 from ..engine import tables as TB
@@ -175,20 +176,37 @@ def rule_R2(ctx):
                     continue
                 FS = FS or T.Slicer(b, P)
                 nfb += 1
-                conds = Q.canon_conds(P, T.dom_conds(b, FS, blk))
+                # every path that reaches this call is judged on its own (several arms may share one fallback call:
+                # `4 if len >= 16 => .., 6 if len >= 24 => .., _ => fallback`)
+                trails, trunc = PA.enumerate_paths(b, 0, 3000, stop={blk})
+                trails = [tr for tr in trails if tr[-1] == blk]
                 why = None
                 loose = None
-                for c in conds:
-                    if c[0] == "cmp" and T.has_call(c[2], "::len"):
-                        op = c[1] if c[4] else {"Lt": "Ge", "Ge": "Lt", "Gt": "Le", "Le": "Gt", "Eq": "Ne", "Ne": "Eq"}[c[1]]
-                        if op == "Lt":
-                            why = "frame shorter than the header"
-                        elif op == "Le":
-                            loose = "len <= %s" % T.pp(T.strip(c[3]))[:30]
-                    if c[0] == "int" and isinstance(c[2], tuple):
-                        why = why or "unknown IP version"
-                    if c[0] == "cmp" and c[1] in ("Ne", "Eq") and T.fold_int(c[3]) in (4, 6):
-                        why = why or "unknown IP version"
+                if trunc or not trails:
+                    trails = []
+                    loose = "too many paths to the fallback call"
+                whys = []
+                # only branches the call is control dependent on decide that the fallback is taken (a test both of whose outcomes
+                # lead here - the Ethernet header probe - is not a reason)
+                deciding = {a for (a, s_) in C.transitive_controls(b, blk)}
+                for tr in trails:
+                    w = None
+                    for c in [Q._norm_cmp(x) for x in PA.path_conds(P, b, FS, tr)]:
+                        if c[-1] not in deciding:
+                            continue
+                        o = Q.oriented(c, lambda z: T.has_call(z, "::len"))
+                        if o:
+                            if o[0] == "Lt":
+                                w = "frame shorter than the header"
+                            elif o[0] == "Le":
+                                loose = "len <= %s" % T.pp(T.strip(o[2]))[:30]
+                        if c[0] == "int" and isinstance(c[2], tuple):
+                            w = w or "unknown IP version"
+                        if c[0] == "cmp" and c[1] in ("Ne", "Eq") and T.fold_int(c[3]) in (4, 6):
+                            w = w or "unknown IP version"
+                    whys.append(w)
+                if whys and all(whys):
+                    why = " / ".join(sorted(set(whys)))
                 ctx.check(why is not None and loose is None, "R2", "%s:%s:fallback@%d" % (fam, T.short(b.path).split("::")[-1], nfb), "fallback hash only when %s" % why,
                           "the whole-frame fallback hash is taken under `%s`: a frame that carries a complete header (exactly the minimum length) is sharded by TTL / id / length "
                           "bytes instead of its connection identity" % (loose or "an unrecognised condition"), ctx.loc(b, blk))
